@@ -569,6 +569,33 @@ func nearPairs(n *Node, r *rand.Rand, types map[string]string, hosts []*Host, en
 	if n.K == "bin" && isCmp(n.Op) && n.L.K == "slot" && n.R.K == "slot" && n.L.N != n.R.N &&
 		types[n.L.N] == "num" && types[n.R.N] == "num" && env[n.L.N].C != "str" && env[n.R.N].C != "str" &&
 		env[n.L.N].C != "bool" && env[n.R.N].C != "bool" && r.Intn(3) == 0 {
+		if r.Intn(3) == 0 {
+			// a float32 value next to the float64 (or integer) it was rounded from: the comparison is made in float64,
+			// so the two differ
+			x := []float64{0.1, 0.7, 1.0 / 3, 16777217, 1e-3, 123456.789}[r.Intn(6)]
+			f32 := float32(x)
+			sides := []*Node{n.L, n.R}
+			if r.Intn(2) == 0 {
+				sides[0], sides[1] = sides[1], sides[0]
+			}
+			i, j := slotIndex(sides[0].N), slotIndex(sides[1].N)
+			if i >= len(hosts) || j >= len(hosts) {
+				return
+			}
+			hosts[i].F32 = f32
+			text[sides[0].N] = hp(i) + ".F32"
+			env[sides[0].N] = Val{C: "float", F: float64(f32)}
+			if x == 16777217 && r.Intn(2) == 0 {
+				hosts[j].I64 = 16777217
+				text[sides[1].N] = hp(j) + ".I64"
+				env[sides[1].N] = Val{C: "int", I: 16777217}
+			} else {
+				hosts[j].F64 = x
+				text[sides[1].N] = hp(j) + ".F64"
+				env[sides[1].N] = Val{C: "float", F: x}
+			}
+			return
+		}
 		p := near[r.Intn(len(near))]
 		if r.Intn(2) == 0 {
 			p[0], p[1] = p[1], p[0]
